@@ -3,6 +3,9 @@ package main
 // Calls: by contract, by model, inlined; interface invocations; goroutines, channels, select.
 
 import (
+	"bytes"
+	"crypto/sha256"
+	"encoding/hex"
 	"fmt"
 	"go/types"
 	"sort"
@@ -382,6 +385,7 @@ func (r *FnRun) callContractB(st *State, fr *frame, instr ssa.Instruction, f *ss
 			r.trustedCallees = map[string]bool{}
 		}
 		r.trustedCallees[pkg.Name()+":"+callee] = true
+		r.noteTrustedBody(pkg.Name()+":"+callee, f)
 	}
 	// ghost parameters: witnesses supplied by the caller's contract, else unconstrained
 	for _, gp := range fc.GhostParams {
@@ -504,6 +508,13 @@ func (r *FnRun) rangeLoop(st *State, fr *frame, instr ssa.Instruction, f *ssa.Fu
 	ord := st.callOrd["rangeloop"]
 	r.calleesByContract[callee] = true
 	pkg := pkgOfFn(f)
+	if fc.Trusted {
+		if r.trustedCallees == nil {
+			r.trustedCallees = map[string]bool{}
+		}
+		r.trustedCallees[pkg.Name()+":"+callee] = true
+		r.noteTrustedBody(pkg.Name()+":"+callee, f)
+	}
 	vars := bindNames(fc, f, f.Signature, true, args)
 	ve, err := parseExpr(fc.IterView)
 	if err != nil {
@@ -1552,4 +1563,39 @@ func (r *FnRun) staticSite(name string, instr ssa.Instruction) int {
 		}
 	}
 	return 0
+}
+
+
+// noteTrustedBody records a fingerprint of the body of a function whose contract is assumed.
+func (r *FnRun) noteTrustedBody(name string, f *ssa.Function) {
+	if r.trustedFP == nil {
+		r.trustedFP = map[string]string{}
+	}
+	if _, ok := r.trustedFP[name]; ok {
+		return
+	}
+	r.trustedFP[name] = bodyFingerprint(f)
+}
+
+// bodyFingerprint: hash of the function's SSA text (and that of its closures) without position comments.
+func bodyFingerprint(f *ssa.Function) string {
+	var b bytes.Buffer
+	var walk func(g *ssa.Function)
+	walk = func(g *ssa.Function) {
+		var t bytes.Buffer
+		g.WriteTo(&t)
+		for _, line := range strings.Split(t.String(), "\n") {
+			if strings.HasPrefix(line, "#") {
+				continue
+			}
+			b.WriteString(line)
+			b.WriteByte('\n')
+		}
+		for _, a := range g.AnonFuncs {
+			walk(a)
+		}
+	}
+	walk(f)
+	sum := sha256.Sum256(b.Bytes())
+	return hex.EncodeToString(sum[:8])
 }
